@@ -9,10 +9,22 @@
 From Coq Require Import ZArith NArith List Bool Arith.
 From GV Require Import Base.Result Base.Host Gen.Instr Model.Num Model.Value Model.Machine
   Model.CompileExpr Model.CompileWL Spec.Ast Spec.Printer Spec.Eval
-  Proofs.C01.MachineFacts Proofs.C01.Fragment Proofs.C01.Stages Proofs.C01.Main Proofs.C01.StageThms Proofs.C01.Bounded Proofs.C01.Witness.
+  Proofs.C01.MachineFacts Proofs.C01.Fragment Proofs.C01.Stages Proofs.C01.Main Proofs.C01.StageThms
+  Proofs.C01.Bounded Proofs.C01.Witness.
 Import ListNotations.
 
-(* what "the compiled program computes r with host trace t" means *)
+(* "the compiled program, started at its entry with `$` = vin, reaches End with
+   current value v, host state h' and observable (resolve/apply) host trace t":
+   StageThms.reaches, unfolded once here for the reader *)
+Example C01_reaches_def : forall sym_hash hstate host e vin h v h' t,
+  reaches sym_hash hstate host e vin h v h' t <->
+  exists s0 fuel steps sfin,
+    initial hstate (compile_prog sym_hash e) 0 vin h = Some s0 /\
+    run hstate host fuel (compile_prog sym_hash e) s0 = REnd hstate sfin steps /\
+    current_value hstate sfin = Some v /\ hs sfin = h' /\ observable (tr sfin) = t.
+Proof. intros. reflexivity. Qed.
+
+(* what "computes r with trace t up to the names of expression values" means *)
 Definition computes (sym_hash : list N -> N) (hstate : Type) (host : hstate -> host_call -> hstate * option val)
            (rho : N -> N) (e : expr) (vin : val) (h : hstate) (r : val) (h' : hstate) (t : trace) : Prop :=
   exists s0 fuel steps sfin v,
@@ -23,7 +35,8 @@ Definition computes (sym_hash : list N -> N) (hstate : Type) (host : hstate -> h
 
 (* The full statement: every program of the core grammar (printable: wf_prog and
    minimal parentheses) outside the known-finding classes, every input value,
-   every host that declines defer_op. *)
+   every host that declines defer_op; nested expressions labelled arbitrarily
+   (distinct labels), results equal up to the renaming rho of expression values. *)
 Definition C01_full_statement : Prop :=
   forall sym_hash hstate host, declines_defer hstate host ->
   forall e vin h n r h' t,
@@ -31,22 +44,36 @@ Definition C01_full_statement : Prop :=
   eval_prog sym_hash hstate host n e vin h = ODone r (h', t) ->
   exists rho, computes sym_hash hstate host rho e vin h r h' t.
 
-(* Stages 1-3, proved for ALL programs of the fragment [frag]: literals, `$`,
-   identifiers, groups, unary and binary arithmetic, bitwise, comparison,
-   equality, `^^ !! ??`, pairs, access, internal accessors, space and comma
-   lists, sub-expression sequences, side-effect blocks, `&&` `||`, conditionals
-   and else-chains.  [shape_ok] excludes the class C01-K1 and two shapes the
-   printer cannot produce without parentheses; [seq_ok] says a sequence stands
-   only where a body may stand (implied by wf: Fragment.wf_seq_ok). *)
+(* Stages 1-4, proved for ALL programs of the core grammar: every construct of
+   Spec/Ast.v.  What separates it from the full statement: the labels of the
+   nested expressions are the jump-table indices of their bodies (labels_ok; the
+   checks compare up to renaming instead), so values and traces are equal on
+   the nose. *)
+Theorem C01_all_constructs_partial : forall sym_hash hstate host, declines_defer hstate host ->
+  forall e vin h n v h' t,
+  printable e = true -> known_K1 e = false -> known_K2 e = false -> labels_ok e = true ->
+  eval_prog sym_hash hstate host n e vin h = ODone v (h', t) ->
+  reaches sym_hash hstate host e vin h v h' t.
+Proof. exact all_programs. Qed.
+Print Assumptions C01_all_constructs_partial.
+
+(* the same with the hypotheses the proof uses (decidable shape predicates) *)
+Theorem C01_stage4_partial : forall sym_hash hstate host, declines_defer hstate host ->
+  forall e vin h n v h' t,
+  frag e = true -> shape_ok e = true -> seq_ok true e = true -> labels_ok e = true ->
+  eval_prog sym_hash hstate host n e vin h = ODone v (h', t) ->
+  reaches sym_hash hstate host e vin h v h' t.
+Proof. exact stage4_program'. Qed.
+Print Assumptions C01_stage4_partial.
+
+(* stages 1-3: everything except nested expressions, the apply forms and `^~`
+   (no labels to speak of) *)
 Theorem C01_control_partial : forall sym_hash hstate host, declines_defer hstate host ->
   forall e vin h n v h' t,
-  frag e = true -> shape_ok e = true -> seq_ok true e = true ->
+  frag3 e = true -> shape_ok e = true -> seq_ok true e = true ->
   eval_prog sym_hash hstate host n e vin h = ODone v (h', t) ->
-  exists s0 fuel steps sfin,
-    initial hstate (compile_prog sym_hash e) 0 vin h = Some s0 /\
-    run hstate host fuel (compile_prog sym_hash e) s0 = REnd hstate sfin steps /\
-    current_value hstate sfin = Some v /\ hs sfin = h' /\ observable (tr sfin) = t.
-Proof. exact stage3_program. Qed.
+  reaches sym_hash hstate host e vin h v h' t.
+Proof. exact stage3_program'. Qed.
 Print Assumptions C01_control_partial.
 
 (* stage 1: literals, `$`, groups, unary / binary arithmetic, bitwise, comparison *)
@@ -54,10 +81,7 @@ Theorem C01_arith_partial : forall sym_hash hstate host, declines_defer hstate h
   forall e vin h n v h' t,
   stage1 e = true ->
   eval_prog sym_hash hstate host n e vin h = ODone v (h', t) ->
-  exists s0 fuel steps sfin,
-    initial hstate (compile_prog sym_hash e) 0 vin h = Some s0 /\
-    run hstate host fuel (compile_prog sym_hash e) s0 = REnd hstate sfin steps /\
-    current_value hstate sfin = Some v /\ hs sfin = h' /\ observable (tr sfin) = t.
+  reaches sym_hash hstate host e vin h v h' t.
 Proof. exact stage1_program. Qed.
 Print Assumptions C01_arith_partial.
 
@@ -66,17 +90,9 @@ Theorem C01_data_partial : forall sym_hash hstate host, declines_defer hstate ho
   forall e vin h n v h' t,
   stage2 e = true -> shape_ok e = true -> seq_ok true e = true ->
   eval_prog sym_hash hstate host n e vin h = ODone v (h', t) ->
-  exists s0 fuel steps sfin,
-    initial hstate (compile_prog sym_hash e) 0 vin h = Some s0 /\
-    run hstate host fuel (compile_prog sym_hash e) s0 = REnd hstate sfin steps /\
-    current_value hstate sfin = Some v /\ hs sfin = h' /\ observable (tr sfin) = t.
+  reaches sym_hash hstate host e vin h v h' t.
 Proof. exact stage2_program. Qed.
 Print Assumptions C01_data_partial.
-
-(* the grammar's sequence discipline is what the theorems ask for *)
-Theorem C01_wf_seq : forall e b, wf b e = true -> seq_ok b e = true.
-Proof. exact wf_seq_ok. Qed.
-Print Assumptions C01_wf_seq.
 
 (* AST compiler = builder model on the printed tokens, for every AST of the
    core grammar with at most 3 constructors over the pool of Proofs/C01/Bounded.v *)
@@ -101,8 +117,14 @@ Proof. exact K2_refuted. Qed.
 Print Assumptions C01_K2_refuted.
 
 (* non-vacuity *)
-Example C01_ex_fragment : frag demo = true /\ shape_ok demo = true /\ seq_ok true demo = true /\
+Example C01_ex_fragment : frag3 demo = true /\ shape_ok demo = true /\ seq_ok true demo = true /\
   known_K1 demo = false /\ known_K2 demo = false.
 Proof. exact demo_in_fragment. Qed.
+Example C01_ex_stage4 :
+  printable demo4 = true /\ known_K1 demo4 = false /\ known_K2 demo4 = false /\ labels_ok demo4 = true /\ frag3 demo4 = false.
+Proof. exact demo4_in_fragment. Qed.
+Example C01_ex_stage4_runs :
+  exists h t, eval_prog sh nat host9 40 demo4 VUnit 0 = ODone (VPair (VNum (Int 3)) (VNum (Int 9))) (h, t) /\ length t = 1.
+Proof. exact demo4_evaluates. Qed.
 Example C01_ex_corpus : 1500 <= length corpus3.
 Proof. exact corpus3_size. Qed.
